@@ -393,6 +393,7 @@ def _run_warmup(run):
     last_epoch = -1
     scale = 0.0
     n_state = 0
+    n_cb = 0
     if float(wb.alpha) != 0.0:
         run.violate(scope, "warmup_alpha", f"alpha starts at {wb.alpha!r}, stated 0", constraint="alpha0")
         raise StopRun()
@@ -423,6 +424,7 @@ def _run_warmup(run):
             ref.callback(e)
             last_epoch = e
             n_state += 1
+            n_cb += 1
             got = float(wb.alpha)
             run.log.add("callback", t, e, _hex(got))
             run.ops_summary.append({"op": "callback", "epoch": e, "alpha": got})
@@ -443,7 +445,7 @@ def _run_warmup(run):
                 raise StopRun()
             if got == 1.0:
                 run.probe("warmup_reached_one")
-            if inner.n_cb != n_state:
+            if inner.n_cb != n_cb or inner.cb_epochs[-1:] != [e]:
                 run.probe("obs_inner_callback_not_forwarded")
             run.state("warmup", "cb", n, e)
             continue
